@@ -947,6 +947,7 @@ def ent_builder_call(ex, args, name):
         return b
     if meth in ('ForUpdate', 'ForShare'):
         b.lock = True
+        b.lock_opts = [o for o in (a[0].items() if a and a[0] is not None else [])]
         return b
     if meth.startswith('With') and bk == 'Query':
         edge = meth[4:]
@@ -1275,6 +1276,18 @@ def query_terminal(ex, b, meth, a):
                 return err
             zero = {'All': Slice(None, 0, 0, 0), 'IDs': Slice(None, 0, 0, 0), 'First': None, 'Only': None, 'OnlyID': 0, 'FirstID': 0}[meth]
             return (zero, err)
+        vh = ex.env.get('select_view')
+        if vh is not None:
+            view = vh(ex, b)
+            if view is not None:
+                saved = db.t
+                db.t = view
+                ex.env['select_view'] = None
+                try:
+                    return query_terminal(ex, b, meth, a)
+                finally:
+                    db.t = saved
+                    ex.env['select_view'] = vh
         if meth in ('First', 'FirstID', 'Only', 'OnlyID') and ex.xp.merge_single_row:
             sel = build_selector(ex, db, e, b.preds)
             if not sel.distinct:
